@@ -11,7 +11,7 @@ def op_replay(run, upto):
 
 
 def run_history_check(ctx, proof, hook, n_hist, length, rule, final_commit=False, coq_steps=True,
-                      known_classifier=None, extra_evidence=None):
+                      known_classifier=None, extra_evidence=None, scripted=()):
     """hook(run, st) fills st.findings[ctx.prop] with messages (model-free oracle, at step time).
     known_classifier(run, st, msg) -> known-finding id or None."""
     common.build_harness()
@@ -23,8 +23,11 @@ def run_history_check(ctx, proof, hook, n_hist, length, rule, final_commit=False
     stats = collections.Counter()
     cfgs = hist.configurations(rng, n_hist)
     all_steps = []
-    for i, cfg in enumerate(cfgs):
-        run = histrun.HistoryRun(ctx, cfg, "h%d" % i, length, rng, hooks=[hook])
+    jobs = [(cfg, None) for cfg in cfgs] + list(scripted)       # scripted: (configuration, list of ops) run as given
+    for i, (cfg, script) in enumerate(jobs):
+        run = histrun.HistoryRun(ctx, cfg, "h%d" % i, length if script is None else len(script), rng, hooks=[hook])
+        if script is not None:
+            run.preamble = list(script)
         try:
             run.run()
             if final_commit:
@@ -72,6 +75,7 @@ def run_history_check(ctx, proof, hook, n_hist, length, rule, final_commit=False
     ctx.coverage["step_outcomes"] = {str(k): v for k, v in outcome.items()}
     ctx.coverage["distribution"] = {"%s/%s" % k: v for k, v in sorted(stats.items())}
     ctx.coverage["histories"] = n_hist
+    ctx.coverage["scripted_histories"] = len(scripted)
     shapes = collections.Counter()
     for run in runs:
         shapes.update(run.shapes)
